@@ -116,6 +116,7 @@ class RealStore:
                 self.h.session.rollback()
                 out = "integrity"
             finally:
+                self.last_unique = locals().get("out")
                 # the temporary table is declared on the class-level metadata: forget it, as a new process would
                 t = self.dm.Base.metadata.tables.get("temp_root_nodes")
                 if t is not None:
@@ -126,6 +127,14 @@ class RealStore:
                         pass
                     self.dm.Base.metadata.remove(t)
             return out
+        if op == "stream_unique":  # what otel_to_pv(find_unique_graphs=True) streams: filter = last selection
+            sel = getattr(self, "last_unique", None)
+            if not isinstance(sel, dict):
+                return "no-selection"
+            out = []
+            for name, jobs in self.h.stream_data({k: set(v) for k, v in sel.items()}):
+                out.append([name, sorted({e.job_id for job in jobs for e in list(job)})])
+            return sorted(out)
         if op == "stream":
             filt = st[1] if len(st) > 1 else None
             fm = None if filt is None else {k: set(v) for k, v in filt.items()}
